@@ -95,6 +95,7 @@ FEATURES = [
     ("class_array_static_keyed", "class LS{S} { public static $map = ['z' => 1, 'a' => 2, 'm' => 3]; public static $list = [3, 1, 2]; } echo json_encode(LS{S}::$map), json_encode(LS{S}::$list), implode(',', array_keys(LS{S}::$map)), \"\\n\";"),
     ("class_array_const_list", "class LL{S} { const LIST = [3, 1, 2]; const EMPTY = []; } echo json_encode(LL{S}::LIST), count(LL{S}::EMPTY), \"\\n\";"),
     ("interface_array_const_keyed", "interface HC{S} { const ORDER = ['y' => 1, 'b' => 2, 'k' => 3]; } class HI{S} implements HC{S} {} echo implode(',', array_keys(HC{S}::ORDER)), implode(',', array_keys(HI{S}::ORDER)), \"\\n\";"),
+    ("reflection_constructor", "class NoCtor{S} {} class WithCtor{S} { public $a; function __construct($a = 1, $b = 2) { $this->a = $a; } } class Inherits{S} extends WithCtor{S} {} class Promoted{S} { function __construct(public $x = 0, protected int $y = 3) {} } abstract class AbsC{S} { public $q; function __construct($q = 9) { $this->q = $q; } } class FromAbs{S} extends AbsC{S} {}\nforeach (['NoCtor{S}', 'WithCtor{S}', 'Inherits{S}', 'Promoted{S}', 'FromAbs{S}'] as $c{S}) { $rc{S} = new \\ReflectionClass($c{S}); $k{S} = $rc{S}->getConstructor(); if ($k{S} === null) { echo $c{S}, \": null\\n\"; continue; } echo $c{S}, ': ', $k{S}->getName(), ' ', count($k{S}->getParameters()), \"\\n\"; }\necho (new \\ReflectionClass('Inherits{S}'))->newInstance(7)->a, (new \\ReflectionClass('FromAbs{S}'))->newInstanceArgs([8])->q, \"\\n\";"),
     ("list_assign", "[$la{S}, $lb{S}] = [1, 2]; echo $la{S}, $lb{S}, \"\\n\";"),
     ("incr_ops", "$u{S} = 1; $u{S}++; ++$u{S}; $u{S} += 3; $u{S} -= 1; $u{S} *= 2; $w{S} = 'a'; $w{S} .= 'b'; echo $u{S}, $w{S}, \"\\n\";"),
     ("uncaught_throw", "echo \"before\\n\"; throw new Exception('uncaught{S}'); echo 'after';"),
@@ -1037,7 +1038,7 @@ def main(ck):
 
     # ---- real single-program projects from the unmodified generated register.go / main.go / go.mod
     real = [f for f in gen_files if progs[f]["kind"] == "feature"]
-    real = [f for f in real if progs[f]["features"][0] in ("class_const", "try_catch", "uncaught_throw", "exit_code", "namespace_fn", "closure_value", "shutdown_function", "datetime_fixed", "multi_namespace", "ob_open_at_end_shutdown", "include_back_to_entry", "namespace_shadows_builtin")]
+    real = [f for f in real if progs[f]["features"][0] in ("class_const", "try_catch", "uncaught_throw", "exit_code", "namespace_fn", "closure_value", "shutdown_function", "datetime_fixed", "multi_namespace", "ob_open_at_end_shutdown", "include_back_to_entry", "namespace_shadows_builtin", "reflection_constructor")]
     if not quick:
         # one real project per feature block + a seeded dozen of the generated families (a project costs ~4 s)
         real = [f for f in gen_files if os.path.basename(f).startswith("f")]
